@@ -15,8 +15,19 @@ CLAIMED = {
          "TLC checks termination without state constraint, AskAtMostOnce, EvalBound, NoLostWaiter, NoEarlyRelease on generated programs incl. cyclic ones; each real drain must release exactly the waiters the specification computes (multiset), work counters of real runs judged by Judge.tla; the tracer bounds events so a livelock yields a finite rejected trace.", "6/C06"),
  "C13": ("model_checking", "TLC model checking (AskOnlyDemandedMissing, NoAskAfterRefusal, UnreadNotRequired) + trace validation of every prompt",
          "TLC checks the prompt discipline on all schedules; each real prompt must be for an unmet input of the specification's tracker with needed_by equal to the registered waiters, never after a refusal; asked inputs judged against the program (the quoted lines really stop at that input).", "6/C13"),
+ "C10": ("translation_validation", "forced execution of every line definition along all syntactic paths; TLC runs the solver's resolution protocol (Catalogue.tla over SolverCore) on every reference",
+         "Every line definition of every form and allowed instance in the three years is executed along its syntactic paths with mock accessors (branch outcomes forced both ways); each reference found (input, line, form, threshold, enumeration member, helper) is resolved by TLC with the solver's own AddForm/ApplyFinal/LoadSpec operators and must end resolved or in 'unsupported' for a deliberately absent form; attribute/name/key errors on any path are violations.", "6/C10"),
+ "C15": ("exploration", "TLC evaluates Balance.tla (balance equations, exclusivity, sign constraints) on every solved explored return",
+         "Seeded scenario exploration of the shipped forms (3 years, all statuses, with and without NC); every solved return's numeric lines in integer cents are judged by the TLA+ formulas of Balance.tla.", "6/C15"),
+ "C16": ("exploration", "TLC evaluates Metamorphic.tla on pairs of solved explored returns (renumbering permutations, wage / withholding / deduction increments)",
+         "For every solved explored return all permutations of payer-form copies and sampled increments are re-solved by the real solver and each pair is judged by the TLA+ relations of Metamorphic.tla.", "6/C16"),
 }
 
+NOTES = {
+ "C10": "paths are forced, so infeasible paths are included (over-approximation); loops take 0-2 iterations; path enumeration per line is capped (quick 3000, thorough 40000); trusted base: the mock accessors of harness/pathexplore.py, TLC",
+ "C15": "explored returns only (seeded); amounts below $10M; the list of lines the forms define as non-negative is a reviewed transcription in Balance.tla",
+ "C16": "explored returns only (seeded); pairs compared only when both solve; listing lines exempt from renumbering equality are the Schedule B payer rows",
+}
 TODO = {}
 for line in open(os.path.join(ROOT, "properties.jsonl")):
     d = json.loads(line)
@@ -34,7 +45,7 @@ def main():
             "replay_cmd_template": "./check %s --replay {path}" % pid,
             "engine": "tlc",
             "level_claimed": {"category": cat, "text": text, "design_ref": ref},
-            "level_note": "bounded: generated programs are a seeded sample (values 0/1, <= 3 forms); conformance of the code to the specification is established on observed executions only; trusted base: TLC, the tracer's wrappers, JSON ingest",
+            "level_note": NOTES.get(pid, "bounded: generated programs are a seeded sample (values 0/1, <= 3 forms); conformance of the code to the specification is established on observed executions only; trusted base: TLC, the tracer's wrappers, JSON ingest"),
             "technique": tech,
         })
     hooks_commits = subprocess.run(["git", "-C", "/repo", "log", "--format=%H", "--grep=HABUTAX_VERIF"], stdout=subprocess.PIPE, text=True).stdout.split()
